@@ -103,7 +103,8 @@ def run(ck, tier, seed):
     # robustness: nesting ramps and seeded arbitrary bytes / mutations ("returns a value or throws, never crashes")
     ramps = []
     for n in ([10, 600, 5000, 200000] if quick else [10, 600, 5000, 200000, 1000000]):
-        ramps += ["[" * n, '{"a":' * n, "[" * n + "]" * n, "[[" * (n // 2) + "1"]
+        ramps += ["[" * n, '{"a":' * n, "[" * n + "]" * n, "[[" * (n // 2) + "1",
+                  "{" * n, " {\n" * n, "{[" * (n // 2), '[{"a":' * (n // 2), "{" * n + "}" * n]        # nesting through every position a value can start in, keys included
     for i, s in enumerate(ramps):
         meta[f"r{i}"] = ("robust", s[:40] + f"... ({len(s)} bytes)")
         cases.append({"id": f"r{i}", "to": 120, "steps": [{"op": "json_rt", "arg": s}]})
